@@ -9,6 +9,8 @@ NOTES = ("Model-based verification with explicit TLA+ specifications (spec/*.tla
          "Exit 0 held / 1 VIOLATION / 2 tool error. See DESIGN.md.")
 
 ENGINES = [
+    {"name": "h-node", "path": "harness/h-node", "serves_properties": ["C11", "C15", "C16"],
+     "kind_free_text": "Rust conformance harness for datacake-node: selector actor, membership watcher, clock actor"},
     {"name": "h-rpc", "path": "harness/h-rpc", "serves_properties": ["C12", "C13"],
      "kind_free_text": "Rust conformance harness for datacake-rpc: real Server/RpcClient on loopback, frame mutation recorder"},
     {"name": "tlc", "path": "/opt/veriftools/tla/tla2tools.jar", "serves_properties": [],
@@ -93,4 +95,13 @@ CHECKS = {
               "per step; each is replayed on a fresh real Server on loopback and all six (service, message) pairs are probed after every step."),
         design_ref="DESIGN.md section 7 C13",
         note="L = 4 quick / 6 thorough. Handler-key hash collisions are outside the model."),
+    "C15": dict(
+        engine="tlc + h-node",
+        technique="TLC enumeration (exhaustive + simulated) of membership-update/selection histories, replayed on the real selector actor, outcomes validated by TLC against the postcondition Allowed of Selector.tla",
+        text=("Selector.tla states Required(layout, level) and Allowed(result) from the property statement (count-only); TLC enumerates every history "
+              "of SetNodes/Select steps up to the length bound over layouts of up to 4 data centres x 4 nodes (and simulates longer ones); each history "
+              "is replayed on a fresh real selector actor, and every distinct (live layout, level, outcome) is validated by Trace_Selector.tla, which "
+              "reports every outcome that is not allowed."),
+        design_ref="DESIGN.md section 7 C15",
+        note="History-dependence lives in the implementation (cursors, cache, stale data centres), which is why histories are enumerated although the oracle is history-free. Random DC choice sampled by repetition."),
 }
